@@ -11,7 +11,7 @@ K_NOTE = ("Trusted: Kani 0.68 MIR->GOTO translation, CBMC 6.11, cadical; unwindi
           "harness-side oracles transcribed from the rustdoc.")
 
 CHECKS = {
- "C01": dict(engine="S", technique="symbolic execution of the real generic parser/evaluator at a term-valued data type; z3 (QF_UFBV) decides impl = reference tree for all values, per table x tree x rendering",
+ "C01": dict(engine="S+K", technique="symbolic execution of the real generic parser/evaluator at a term-valued data type; z3 (QF_UFBV) decides impl = reference tree for all values, per table x tree x rendering",
     text="Bounded model checking of the real FlatEx code path: for every operator table of a 312-table family, every expression tree up to the tier bound and every rendering, the value term produced by the real parser+evaluator equals the tree for ALL variable and literal values (solver verdict), flagged operators interpreted as genuinely AC. Tests sample a few hundred f64 strings on one table; this covers all values and all small structures, incl. equal priorities, flags, >64-operand chains.", ref="4/C01"),
  "C02": dict(engine="S", technique="same engine; five folding pipelines (parse, parse_wo_compile, recompile, compile twice, DeepEx::parse) each decided equal to the reference tree with literals as free constants; raw-string differential parse vs parse_wo_compile",
     text="Constant folding is decided invisible for all literal and variable values within the bounded family of tables/trees; literals are free constants so any literal combined with the wrong neighbour is a counterexample.", ref="4/C02"),
@@ -27,7 +27,7 @@ CHECKS = {
     text="Every malformed text in the enumerated space is rejected by all three parser entry points; acceptance is value-independent so this part is path enumeration inside the symbolic executor, not a solver query (said so in the evidence).", ref="4/C07"),
  "C08": dict(engine="S", technique="same engine; every subset of alphabetic binary nodes rendered in call form at every position, nesting depth up to 3/4; solver decides value = tree",
     text="Call notation decided equivalent to ((a) op (b)) for all values on all bounded trees/call masks/renderings.", ref="4/C08"),
- "C09": dict(engine="S", technique="same calculus engine; index sequences of length 0..3/4 incl. out-of-range entries; identities (iter = sequential, nth = repeated, order 0 = identity, mixed partials commute) decided in QF_UFNRA; variable lists and Err outcomes asserted per path",
+ "C09": dict(engine="S+K", technique="same calculus engine; index sequences of length 0..3/4 incl. out-of-range entries; identities (iter = sequential, nth = repeated, order 0 = identity, mixed partials commute) decided in QF_UFNRA; variable lists and Err outcomes asserted per path",
     text="Differentiation bookkeeping decided for a 12-expression pool x every index sequence up to the bound, flat and deep.", ref="4/C09"),
  "C10": dict(engine="S", technique="same calculus engine; every (start, step[, step]) history of operate_unary/operate_binary/helpers/overloaded + - * / pow neg over a 12-expression pool; value = operator applied to operand values decided in QF_UFNRA under the domain of the unsimplified form; neutral-element shortcuts forked by the oracle (symbolic-literal pass)",
     text="Operator application decided a homomorphism (value and sorted-union variable list) for all assignments on ~16000 histories over a pool with overlapping/disjoint variables, constants 0/1, and folded constants; unknown names are errors.", ref="4/C10"),
@@ -35,9 +35,20 @@ CHECKS = {
     text="Substitution decided simultaneous and variable lists exact for an 11-expression x 8-replacement pool over 35/104 tables.", ref="4/C11"),
  "C12": dict(engine="S", technique="same engine; parse(unparse(e)) and serde_json round trips decided equal to the tree; unparse identity by string equality",
     text="Round trips decided value-preserving for all values on the bounded tree family (deep, flat-from-deep, serde).", ref="4/C12"),
+ "C13": dict(engine="S+K", technique="Kani/CBMC decides is_numeric_text (all ASCII strings <= 5 bytes vs the documented literal rule) and is_operator_binary (every capability x every left token) for all inputs; lexical families (extended/truncated operator names, longest match, signs, literals, braces, Greek) are pushed through the real tokenizer at T = Sym and compared with expected trees",
+    text="The two lexing kernels are model-checked for every input within their bound; everything that sits on regex/lazy_static (exact-match look-ahead, longest match, braces) cannot be encoded by the installed engines and is covered as enumerated lexical families through the real tokenizer (said so in the evidence).", ref="4/C13"),
+ "C14": dict(engine="S+K", technique="Kani/CBMC: one step of the word tracker from an ARBITRARY state vs a boolean-vector model, eval_binary for all orders of 7 operands as one symbolic permutation (word and slice tracker); thorough: 2- and 3-word slice tracker steps, 9 operands. Engine S: long chains 9..257 operands, boundary-island chains of 200 operands, exhaustive 6-operand chains through the public API",
+    text="Operand tracking is decided for every tracker state/index (inductive single step) and every application order up to 7/9 operands by CBMC; the size hand-over at 64 operands and mixed orders beyond it are decided through the public API by engine S for all values.", ref="4/C14"),
  "C15": dict(engine="S", technique="same engine; eval_vec/eval_iter terms decided equal to the reference; clone counter and moved-out-placeholder flag of the proxy type asserted per path",
     text="Consuming evaluation decided equal to the reference for all values; exactly-once variables are never cloned; the placeholder never reaches an operator.", ref="4/C15"),
- "C19": dict(engine="M", technique="MIR of FloatOpsFactory::make (nightly -Zunpretty=mir) translated entry by entry to SMT-LIB FloatingPoint terms; z3 decides body(a,b) = documented function for all a, b at f64 and f32; counterexamples replayed through the real function pointers",
+ "C16": dict(engine="S+K", technique="Kani/CBMC operator cells of Val<i32,f64>: per operator and role, concrete operand kinds x fully symbolic payloads (multiplicative Int kernels over boundary values and [-9,9], exponents [-2,66]) vs the typed rule table transcribed from the rustdoc; the operator is looked up by a natively computed index and repr() asserted. Engine S: precedence semantics of the real table (metadata transplant) decided for all values",
+    text="Typing/error rules of the value operators are model-checked per cell (quick: the cells the property singles out; thorough: all 150 harnesses incl. arrays and the second/third instantiation for casts); expression-level precedence over the real table is decided by engine S.", ref="4/C16"),
+ "C17": dict(engine="K", technique="Kani/CBMC on the same operator cells: every Rust-level panic (overflow assertion, unwrap on None, index out of bounds) and unwinding assertion is a proof obligation; counterexamples are replayed natively with `cargo kani playback`",
+    text="Totality of the value operators for ALL payloads of every operand kind within the harness bounds; the same function pointers are called by parse-time folding. Quick: the operators the property names (neg, abs, rem, div, casts incl. <i32,f32>); thorough: all cells.", ref="4/C17",
+    note=K_NOTE),
+ "C18": dict(engine="S+K", technique="calculus engine over the transplanted ValOpsFactory table with if/else/comparisons interpreted in SMT (ite over reals with a distinguished none value); first and second order (mixed) derivatives decided equal to ite(c, f', g'); Kani cells for if/else/comparisons/to_float in the thorough tier",
+    text="Branch-wise differentiation of piecewise expressions decided for all points on a pool of ~450 piecewise expressions (nested, inside arithmetic, parenthesised conditions), order 1 and 2, flat and deep.", ref="4/C18"),
+ "C19": dict(engine="M+K", technique="MIR of FloatOpsFactory::make (nightly -Zunpretty=mir) translated entry by entry to SMT-LIB FloatingPoint terms; z3 decides body(a,b) = documented function for all a, b at f64 and f32; counterexamples replayed through the real function pointers",
     text="Every entry of the default table (34 operators in both roles, 6 constants) is decided to compute the function its name documents, with the documented argument order, for ALL float operands (IEEE + - * / interpreted bit-precisely, num::Float methods as uninterpreted functions named after the method). A body that is not a recognised single call is inconclusive, never a pass.", ref="4/C19",
     note="Trusted: rustc nightly's MIR printer, z3 4.8.12 FP theory, num::Float forwarding to the std primitive (uninterpreted here), the name->primitive table transcribed from the rustdoc of FloatOpsFactory. sat answers are replayed natively through Operator::bin()/unary() of the real f32/f64 tables."),
 }
